@@ -26,15 +26,17 @@ pub enum Op {
     CancelRetrans = 6,
     Configure = 7,
     SetRemote = 8,
+    /// calls that must not change anything: send_data, the mutable handle's queries, getters
+    Misc = 9,
 }
-const OPS: [Op; 9] = [Op::Poll, Op::SendReq, Op::Respond, Op::SendOther, Op::Incoming, Op::Cancel, Op::CancelRetrans, Op::Configure, Op::SetRemote];
+const OPS: [Op; 10] = [Op::Poll, Op::SendReq, Op::Respond, Op::SendOther, Op::Incoming, Op::Cancel, Op::CancelRetrans, Op::Configure, Op::SetRemote, Op::Misc];
 
-fn weights(profile: &str) -> [u32; 9] {
+fn weights(profile: &str) -> [u32; 10] {
     // order as OPS
     match profile {
-        "timing" => [50, 10, 5, 1, 1, 3, 5, 14, 1],
-        "forgery" => [25, 12, 38, 1, 3, 2, 2, 3, 8],
-        _ => [30, 14, 18, 3, 6, 4, 4, 5, 3],
+        "timing" => [50, 10, 5, 1, 1, 3, 5, 14, 1, 2],
+        "forgery" => [25, 12, 38, 1, 3, 2, 2, 3, 8, 2],
+        _ => [30, 14, 18, 3, 6, 4, 4, 5, 3, 3],
     }
 }
 
@@ -54,6 +56,10 @@ pub struct AgentSim {
     pub extra_tids: Vec<u128>,
     pub delivered_responses: Vec<(Vec<u8>, SocketAddr)>,
     pub prop: String,
+    /// fixed remote address given to the agent's builder (None in most runs)
+    pub remote: Option<SocketAddr>,
+    /// the driver owns the clock (scenario `agent`); false when an event queue does (`world`)
+    pub owns_clock: bool,
     grams: [u8; 2],
 }
 
@@ -78,8 +84,13 @@ impl AgentSim {
             other_creds = Creds::Short("attacker-key".into());
         }
         let max_live = ctx.ch.range(1, if thorough { 8 } else { 4 }) as usize;
+        // knob: the builder's optional remote address (some member of the pool, so that it differs
+        // from most destinations); no property lets it influence any transmission
+        let remote = if ctx.ch.rare(1, 3) { Some(*ctx.ch.pick(&pool)) } else { None };
         Self {
-            agent: new_agent(tcp, local),
+            owns_clock: false,
+            remote,
+            agent: new_agent_with(tcp, local, remote),
             model: {
                 let mut m = Model::new(tcp, local);
                 m.check_prop = ctx.cfg.prop.clone();
@@ -232,6 +243,7 @@ impl AgentSim {
         // the oracle's copy of the bytes is taken from the builder *before* the agent sees it
         let bytes = spec.build();
         let signed = spec.signed();
+        self.advance_before_send(ctx);
         let at = self.now;
         ctx.st.inc("op.send_request");
         let r = self.call(ctx, Call::Send { spec, to, at })?;
@@ -241,6 +253,22 @@ impl AgentSim {
         self.gram(ctx, 0x10 + kind as u8);
         // configure right after send (the use the property describes)
         Ok(())
+    }
+
+    /// The application sends whenever it likes, not only at the instant of its last poll: in a third
+    /// of the sends the clock has moved on since the previous call (possibly past a wake-up that was
+    /// not polled yet).  The instant handed to `send` must not move any other transaction's schedule.
+    fn advance_before_send(&mut self, ctx: &mut Ctx) {
+        if self.owns_clock && ctx.ch.rare(1, 3) {
+            let d = match ctx.ch.below(4) {
+                0 => ctx.ch.range(1, 999),
+                1 => ctx.ch.range(1, 400) * MS,
+                2 => 300 * MS,
+                _ => ctx.ch.range(1, 5000) * MS,
+            };
+            self.now += d;
+            ctx.st.inc("op.send_at_later_instant_than_last_call");
+        }
     }
 
     pub fn op_send_other(&mut self, ctx: &mut Ctx) -> ScResult {
@@ -253,10 +281,11 @@ impl AgentSim {
         let spec = MsgSpec { class, method: 1, tid, attrs, seals: seals_of(variant, &self.local_creds) };
         let to = *ctx.ch.pick(&self.pool);
         let bytes = spec.build();
+        self.advance_before_send(ctx);
         let at = self.now;
         ctx.st.inc("op.send_nonrequest");
         let r = self.call(ctx, Call::Send { spec, to, at })?;
-        if let Err(v) = self.model.on_send_other(to, &bytes, &r) {
+        if let Err(v) = self.model.on_send_other(to, &bytes, at, &r) {
             return Err(self.fail(ctx, v));
         }
         self.gram(ctx, 0x20);
@@ -664,6 +693,44 @@ impl AgentSim {
         Ok(())
     }
 
+    /// Calls that no property allows to change anything: `send_data`, queries through the mutable
+    /// handle, getters.  They are recorded in the history (C20 replays them), the mutable handle's
+    /// peer address is checked like the read-only one (C18), and the invariants that follow every
+    /// operation show that nothing else moved.
+    pub fn op_misc(&mut self, ctx: &mut Ctx) -> ScResult {
+        match ctx.ch.below(3) {
+            0 => {
+                let n = ctx.ch.range(0, 40) as usize;
+                let mut bytes = ctx.ch.bytes(n);
+                // sometimes application data that looks like a response to an outstanding request
+                if let Some(t) = self.model.live().next() {
+                    if ctx.ch.rare(1, 3) {
+                        bytes = t.bytes.clone();
+                        bytes[0] = 0x01;
+                        bytes[1] = 0x01;
+                    }
+                }
+                let to = *ctx.ch.pick(&self.pool);
+                ctx.st.inc("op.send_data");
+                self.call(ctx, Call::SendData { bytes, to })?;
+            }
+            1 => {
+                let tid = self.pick_tid_for_control(ctx);
+                ctx.st.inc("op.query_through_mut_handle");
+                let r = self.call(ctx, Call::QueryTxMut { tid })?;
+                if let Err(v) = self.model.check_query_tx(tid, &r) {
+                    return Err(self.fail(ctx, v));
+                }
+            }
+            _ => {
+                ctx.st.inc("op.getters");
+                self.call(ctx, Call::Getters)?;
+            }
+        }
+        self.gram(ctx, 0x90);
+        Ok(())
+    }
+
     /// Poll at every announced wake-up until no transaction is outstanding (bounded liveness).
     pub fn drain(&mut self, ctx: &mut Ctx) -> ScResult {
         let bound = 40 * self.model.txs.len() as u64 + 60;
@@ -694,7 +761,8 @@ pub fn scenario(ctx: &mut Ctx) -> ScResult {
     let thorough = ctx.cfg.thorough;
     let tcp = ctx.ch.rare(1, 4);
     let mut s = AgentSim::new(ctx, tcp);
-    ev!(ctx, "agent transport={} local={} pool={:?} max_live={}", if tcp { "tcp" } else { "udp" }, s.model.local, s.pool, s.max_live);
+    s.owns_clock = true;
+    ev!(ctx, "agent transport={} local={} builder.remote_addr={:?} pool={:?} max_live={}", if tcp { "tcp" } else { "udp" }, s.model.local, s.remote, s.pool, s.max_live);
     ev!(ctx, "creds local={} peer={} other={}", s.local_creds.short_desc(), s.peer_creds.short_desc(), s.other_creds.short_desc());
     // swarm: disable a random subset of operation kinds for this run
     let mut w = weights(&profile);
@@ -766,6 +834,10 @@ pub fn scenario(ctx: &mut Ctx) -> ScResult {
                 s.op_set_remote(ctx)?;
                 s.invariants(ctx)?;
             }
+            Op::Misc => {
+                s.op_misc(ctx)?;
+                s.invariants(ctx)?;
+            }
         }
     }
     s.drain(ctx)?;
@@ -826,6 +898,9 @@ fn call_kind(c: &Call) -> &'static str {
         Call::SetRemote(_) | Call::SetLocal(_) => "set_credentials",
         Call::QueryTx { .. } => "request_transaction",
         Call::QueryPeer { .. } => "is_validated_peer",
+        Call::SendData { .. } => "send_data",
+        Call::QueryTxMut { .. } => "mut_request_transaction",
+        Call::Getters => "getters",
     }
 }
 
@@ -853,21 +928,21 @@ pub fn replays(ctx: &mut Ctx, s: &AgentSim, tcp: bool) -> ScResult {
     let hist = &s.history;
     let local = s.model.local;
     // (a) another instance, same thread, same instants
-    let mut a = new_agent(tcp, local);
+    let mut a = new_agent_with(tcp, local, s.remote);
     if let Some((i, got)) = replay_on(&mut a, hist, anchor()) {
         return Err(replay_violation(ctx, "other_instance", hist, i, &got, ""));
     }
     ctx.st.inc("replay.other_instance");
     // (b) every instant shifted by a constant
     let d = *ctx.ch.pick(&SHIFTS_NS);
-    let mut b = new_agent(tcp, local);
+    let mut b = new_agent_with(tcp, local, s.remote);
     if let Some((i, got)) = replay_on(&mut b, hist, anchor() + Duration::from_nanos(d)) {
         return Err(replay_violation(ctx, "time_shifted", hist, i, &got, &format!(" by {d} ns")));
     }
     ctx.st.inc("replay.time_shifted");
     // (c) on a freshly spawned thread (spawn-run-join: the schedule is still the simulator's)
     let r = std::thread::scope(|sc| sc.spawn(|| {
-        let mut c = new_agent(tcp, local);
+        let mut c = new_agent_with(tcp, local, s.remote);
         replay_on(&mut c, hist, anchor())
     }).join());
     match r {
@@ -884,7 +959,7 @@ pub fn replays(ctx: &mut Ctx, s: &AgentSim, tcp: bool) -> ScResult {
             (new_agent(if i % 2 == 0 { tcp } else { !tcp }, local), h, 0usize)
         })
         .collect();
-    let mut dd = new_agent(tcp, local);
+    let mut dd = new_agent_with(tcp, local, s.remote);
     let stride = ctx.ch.range(1, 5) as usize;
     for (i, (c, want)) in hist.iter().enumerate() {
         if i % stride == 0 {
@@ -913,7 +988,7 @@ pub fn replays(ctx: &mut Ctx, s: &AgentSim, tcp: bool) -> ScResult {
         past = real_now.checked_sub(back);
     }
     if let Some(pb) = past {
-        let mut e = new_agent(tcp, local);
+        let mut e = new_agent_with(tcp, local, s.remote);
         if let Some((i, got)) = replay_on(&mut e, hist, pb) {
             return Err(replay_violation(ctx, "anchored_in_real_past", hist, i, &got, ""));
         }
